@@ -432,8 +432,8 @@ func genMut(s spec) genOut {
 // ---------------------------------------------------------------------------------------
 // raw bytes and invalid UTF-8
 
-var badSeqs = []string{"\xff", "\xfe\xff", "\xc0\x80", "\xed\xa0\x80", "\xf8\x88\x80\x80\x80", "\xe2\x82", "\x00", "\xef\xbb\xbf", " ", " ", "﻿", "‮",
-	"́", "\U0001F389", "\U0010FFFF", "\xf4\x90\x80\x80", "\r", "\r\n", "\x0b", "\x0c", "\x1b[31m", "\x7f", "\x80", "\xbf"}
+var badSeqs = []string{"\xff", "\xfe\xff", "\xc0\x80", "\xed\xa0\x80", "\xf8\x88\x80\x80\x80", "\xe2\x82", "\x00", "\xef\xbb\xbf", "\u2028", " ", "\ufeff", "\u202e",
+	"\u0301", "\U0001F389", "\U0010FFFF", "\xf4\x90\x80\x80", "\r", "\r\n", "\x0b", "\x0c", "\x1b[31m", "\x7f", "\x80", "\xbf"}
 
 var byteSeeds = []string{
 	"x := 1\nprint(x)\n", `s := "héllo"` + "\n", "func f(a, b) {\n\treturn a + b\n}\nf(1, 2)\n", `'{x} {y}'`, "[1, 2, 3].map(func(x) { return x * 2 })",
@@ -537,7 +537,7 @@ var fixedSnippets = func() []snippet {
 	add("escape", `"\a\b\f\n\r\t\v\\\e"`, `"\x"`, `"\x4"`, `"\x41"`, `"\xzz"`, `"\u"`, `"\u12"`, `"é"`, `"\ud800"`, `"\U"`, `"\U0001F389"`, `"\U00110000"`, `"\UFFFFFFFF"`, `"\0"`, `"\00"`, `"\000"`, `"\777"`, `"\400"`, `"\8"`, `"\q"`, `"\'"`, `'\"'`, `'\''`, `"\`+"\n"+`"`, `'\{'`, `'\}'`, `'{"\""}'`, `'{x}\'`, `"\x00"`, `"a`+"\x00"+`b"`, "`\\`", "`\\``",
 		`'{1}'`, `'{1 +}'`, `'{}'`, `'{;}'`, `'{x;y}'`, `'{x`+"\n"+`}'`, `'{"{"}'`, `'{ {"a": 1} }'`, `'{ {1} }'`, `'{ func() { return 1 }() }'`, `'{ '{ '{1}' }' }'`, `'{x} {x} {x} {x} {x} {x} {x} {x}'`, `'{undefined_name}'`, `'{1/0}'`, `'{ return }'`, `'{ x := 1 }'`, `'{ if }'`, `'{`+"`a`"+`}'`)
 	add("hostile", `return if`, `const x = if`, `switch x { default: }`, "x := `a\nb` +", "f(`a\nb`,", "x := \"a\nb", "'{a\nb}' +", "/* a\nb */ +", "x.\ny.\n", "x := [\n1,\n2\n", "{\n\"a\":\n", "func(\n\n", "x := 1 +\n\n\n", "if x {\n\n\n",
-		"x\r\ny\r\n", "x\ry", "x y", "﻿x := 1", "x := 1\x00", "\x00", "x := 1 // c\x00\ny", "é := 1; é", "日本 := 1", "x := \"日本語\"; x[0]", "á := 1", "𝒙 := 1",
+		"x\r\ny\r\n", "x\ry", "x\u2028y", "\ufeffx := 1", "x := 1\x00", "\x00", "x := 1 // c\x00\ny", "é := 1; é", "日本 := 1", "x := \"日本語\"; x[0]", "a\u0301 := 1", "𝒙 := 1",
 		`x.y = 1`, `x[0] = 1`, `1 = 2`, `f() = 1`, `x.y := 1`, `x[0] := 1`, `x.y++`, `x[0]++`, `f()++`, `1++`, `"a"++`, `x, y = 1`, `x.y, z = 1, 2`, `[a, b] = [1, 2]`, `{a} := 1`,
 		`func() { return 1 }()`, `func f() { return f }; f()()()`, `func() {}()()`, `(func)`, `func(){}.x`, `func(){}[0]`, `f := func(a=func(b=func(){}){}){}; f()`, `func f(a=f) {}; f()`, `func f(a=a) {}; f()`, `func f(f) { return f }; f(f)`,
 		`x := x`, `x := func() { return x }; x()`, `x = 1`, `print(y); y := 1`, `func f() { return g() }; func g() { return 1 }; f()`, `{ x := 1 }; x`, `if true { y := 1 }; y`,
